@@ -52,10 +52,25 @@ def tasks(tier, seed):
     ts.append(Task('prepare_data', MOD, 'task_prepare_data', (), fuc=['segno.encoder.prepare_data']))
     # the packers rely on the find_mode contract: its obligations (C07.*) are dependencies of C01
     ts += [t for t in c07.tasks(tier, seed) if t.func in ('task_alnum_set', 'task_is_kanji', 'task_is_alphanumeric', 'task_find_mode')]
+    # nothing is cut off: the size used to choose / accept the version is the number of bits the writers produce
+    # (C04: bit_length_with_overhead == ISO need, incl. the ECI / Hanzi header per part): dependency of C01
+    from . import c04
+    ts += [t for t in c04.tasks(tier, seed) if t.func == 'task_need']
     n = 40 if tier == 'quick' else 600
     for k in range(16):
         ts.append(Task('bounded_decode[%d]' % k, MOD, 'task_bounded_decode', (seed, k, n), backend='bounded',
                        fuc=['segno.make', 'segno.make_qr', 'segno.make_micro'], weight=30))
+    # decodability is the composition of the stage contracts: the obligations of the later stages (layout and format information C02,
+    # block structure / placement C03, terminator and padding C13, masking C06) are dependencies of C01 and are discharged in this check too
+    from . import c02, c03, c13, c06
+    seen = {(t.module, t.func, repr(t.args)) for t in ts}
+    for dep in (c02, c03, c13, c06):
+        for t in dep.tasks(tier, seed):
+            key = (t.module, t.func, repr(t.args))
+            if t.backend == 'bounded' or t.func in ('task_glue', 'task_wrappers') or key in seen:
+                continue
+            seen.add(key)
+            ts.append(t)
     from . import glue, api
     ts += glue.glue_tasks('C01')
     ts.append(Task('api_wrappers', 'contracts.api', 'task_wrappers', ('C01',), backend='ground', fuc=api.FUC))
@@ -435,7 +450,7 @@ def task_write_segment(I, v):
         if not iso.mode_available(mode, v):
             continue
         for eci in ((False, True) if v >= 1 else (False,)):
-            for encoding in (('iso-8859-1', 'utf-8', 'shift_jis', 'UTF-8') if mode == 'byte' else (None,)):
+            for encoding in (('iso-8859-1', 'utf-8', 'shift_jis', 'UTF-8', 'latin1') if mode == 'byte' else (None,)):
                 def thunk(I):
                     install_field_buffer(I, st)
                     buff = I.instantiate(enc.Buffer, (), {})
